@@ -1,6 +1,10 @@
 package main
 
-import "golang.org/x/tools/go/ssa"
+import (
+	"go/token"
+
+	"golang.org/x/tools/go/ssa"
+)
 
 func init() { register("C18", checkC18) }
 
@@ -30,4 +34,44 @@ func checkC18(p *Program, r *Reporter) {
 	r.Rule("E5-ERRRET", "every error result of a call is returned when non-nil (io.EOF branch exempt)", 6)
 	ruleErrorsReturned(p, r, "E5-ERRRET", fns, nil)
 	checkCursorProgress(p, r, fns, "E3-F1", 1)
+	// (c) nothing buffered is dropped at the end of input
+	parse := p.mustFunc(r, pkgChunk, "(*MP4ChunkParser).Parse")
+	if parse == nil {
+		return
+	}
+	r.Rule("E5-FLUSHED", "every successful return of Parse is decided by 'bytes are buffered' (contentEnd > 0), whose true side hands buf[:contentEnd] to the callback", 2)
+	for _, b := range parse.Blocks {
+		ret, ok := b.Instrs[len(b.Instrs)-1].(*ssa.Return)
+		if !ok || len(ret.Results) != 1 || !isNilConst(ret.Results[0]) {
+			continue
+		}
+		okFlush, why := false, "the return is not decided by a test of the number of buffered bytes"
+		if d := b.Idom(); d != nil {
+			if ifi, ok := d.Instrs[len(d.Instrs)-1].(*ssa.If); ok {
+				if bo, ok := ifi.Cond.(*ssa.BinOp); ok && bo.Op == token.GTR {
+					f, isLoad := loadedField(bo.X)
+					k, isConst := constInt(bo.Y)
+					if isLoad && f == "chunkparser.MP4ChunkParser.contentEnd" && isConst && k == 0 {
+						// the true side calls the callback with buf[:contentEnd]
+						hands := false
+						for _, in := range d.Succs[0].Instrs {
+							if sl, ok := in.(*ssa.Slice); ok && sl.Low == nil && sl.High != nil {
+								if hf, ok := loadedField(sl.High); ok && hf == "chunkparser.MP4ChunkParser.contentEnd" {
+									hands = true
+								}
+							}
+						}
+						if hands {
+							okFlush, why = true, "decided by contentEnd > 0; the true side hands buf[:contentEnd] to the callback"
+						} else {
+							why = "the buffered bytes handed to the callback are not buf[:contentEnd]"
+						}
+					} else {
+						why = "the flush before this return is guarded by " + bo.String() + ", not by 'bytes are buffered' (contentEnd > 0): buffered bytes can be dropped"
+					}
+				}
+			}
+		}
+		r.Decide(okFlush, "E5-FLUSHED", shortFn(parse), "return-nil", p.pos(instrPos(ret)), why, "the parser can return successfully without delivering bytes it has read: "+why, nil)
+	}
 }
